@@ -107,6 +107,9 @@ def run_general(ctx, fields, what, n_fake, n_real, gen=None, rule="", names_mix=
                 names = "none" not in a2[0]
             one_case(eng, res, sc, a2, opts, explicit, order, fields, what, real=(it >= n_fake), names=names,
                      sample=(it % 37 == 0), packed=(rng.random() < 0.3), pack_refs=(rng.random() < 0.3))
+            if it % 3 == 0:
+                twin_cases(eng, res, sc, rng, fields, what)
+        tiny_cases(eng, res, fields, what, rng)
         wide_cases(eng, res, fields, what, ctx["tier"] == "quick", rng)
         scale_cases(eng, res, fields, what, ctx["tier"] == "quick", rng)
     finally:
@@ -115,6 +118,63 @@ def run_general(ctx, fields, what, n_fake, n_real, gen=None, rule="", names_mix=
                        "this contract (contract_b) is evaluated on every enumeration used, real or generated",
                        "reference selection for the scenarios uses an independent python statement of the prefix rules"]
     return res
+
+
+def twin_cases(eng, res, sc, rng, fields, what):
+    """Two references at one object of which only the later-sorted one is selected (a lightweight tag next to its branch,
+    a branch next to its remote-tracking twin): everything reachable from it is still measured."""
+    if not sc.refs:
+        return
+    name_a, x = rng.choice(sorted(sc.refs))
+    twin = name_a + b"-twin"
+    try:
+        twin.decode("utf-8")
+    except UnicodeDecodeError:
+        return
+    if any(n.startswith(twin + b"/") or twin.startswith(n + b"/") or n == twin for n, _ in sc.refs):
+        return
+    sc2 = S.Scenario()
+    sc2.objects = [dict(o) for o in sc.objects]
+    sc2.refs = list(sc.refs) + [(twin, x)]
+    sc2 = sc2.normalize()
+    for a2, o2 in ((["--include", twin.decode("latin1")], [(True, "prefix", twin)]),
+                   (["--exclude", name_a.decode("latin1")], [(False, "prefix", name_a)])):
+        w3 = [r["obj"] for r in SC.build_roots(sc2, o2, []) if r["walk"]]
+        one_case(eng, res, sc2, a2, o2, [], sc2.enum_random(w3, rng), fields, what + ": twin references, the first one not selected")
+
+
+def tiny_scenarios():
+    """The shortest entries a tree can hold — a one-byte name under each entry mode (git writes a directory's mode as the
+    five characters 40000, so `40000 z\\0<oid>` is the shortest entry there is) — as the only, the first and the last
+    entry of the tree that is the strict maximum of the per-tree quantities."""
+    modes = [(0o40000, "dir"), (0o100644, "file"), (0o100755, "exe"), (0o120000, "link"), (0o160000, "sub")]
+    for mode, kind in modes:
+        for pos in ("only", "first", "last"):
+            s = S.Scenario()
+            b = s.add({"kind": "blob", "data": b"x"})
+            sub = s.add({"kind": "tree", "entries": [(0o100644, b"f", b)]})
+            ref = sub if kind == "dir" else (bytes(range(1, 21)) if kind == "sub" else b)
+            if pos == "only":
+                ents = [(mode, b"z", ref)]
+            elif pos == "first":
+                ents = [(mode, b"0", ref), (0o100644, b"a", b), (0o100644, b"bb", b)]
+            else:
+                ents = [(0o100644, b"a", b), (0o100644, b"bb", b), (mode, b"z", ref)]
+            top = s.add({"kind": "tree", "entries": ents})
+            c = s.add({"kind": "commit", "tree": top, "parents": []})
+            s.refs.append((b"refs/heads/main", c))
+            yield "shortest %s entry as the %s entry of the widest tree" % (kind, pos), s.compute()
+
+
+def tiny_cases(eng, res, fields, what, rng):
+    n = 0
+    for label, sc in tiny_scenarios():
+        roots = [x for _, x in sorted(sc.refs)]
+        for style in ("gitlike", "referent_first"):
+            one_case(eng, res, sc, [], [], [], sc.enum_random(roots, rng, style=style), fields, "%s: %s (%s)" % (what, label, style),
+                     real=(style == "gitlike" and n % 3 == 0))
+            n += 1
+    res.coverage_extra["shortest_entry_cases"] = n
 
 
 def wide_scenario(n, shared=False):
@@ -149,6 +209,18 @@ def wide_cases(eng, res, fields, what, quick, rng):
                "max_history_depth": 1}
         for style in ("referrer_first", "referent_first"):
             closed_form_case(eng, res, sc, sc.enum_random(roots, rng, style=style), exp, "%s: tree with %d sub-directories (%s)" % (what, w, style))
+            n += 1
+    # one sub-tree referred to w times costs three tree objects however large w is, so the 2^15 and 2^16 boundaries of the
+    # per-tree bookkeeping are crossed in every tier (every entry is a sub-tree whose size is still unknown when the wide tree is
+    # read, which is git's own order)
+    for w in (32767, 32768, 32769, 65535, 65536, 65537):
+        sc = wide_scenario(w, True)
+        roots = [x for _, x in sorted(sc.refs)]
+        exp = {"unique_blob_count": 1, "unique_tree_count": 4, "unique_tree_entries": w + 3, "max_tree_entries": w,
+               "max_expanded_tree_count": w + 2, "max_expanded_blob_count": w, "max_expanded_blob_size": w, "max_path_depth": 3,
+               "unique_commit_count": 2, "max_history_depth": 1}
+        for style in ("referrer_first", "gitlike"):
+            closed_form_case(eng, res, sc, sc.enum_random(roots, rng, style=style), exp, "%s: tree with %d entries naming one sub-directory (%s)" % (what, w, style))
             n += 1
     for w in widths:
         for shared in ((False,) if w > 300 else (False, True)):
